@@ -180,3 +180,476 @@ pub fn invalid_encodings(group: &str, what: &str, len: usize) -> Vec<(String, Ve
     }
     v
 }
+
+
+/// Map the label of a concrete invalid member to the abstract class name used in spec/Wire.tla
+pub fn tla_class(group: &str, what: &str, label: &str) -> &'static str {
+    let rist = group.starts_with("ristretto255");
+    let x = group == "Curve25519";
+    if what == "scalar" {
+        if label == "zero" {
+            return "zero";
+        }
+        return if x { "unclamped" } else { "georder" };
+    }
+    if rist {
+        if label == "identity" {
+            "identity"
+        } else if label.starts_with("negative") {
+            "negative"
+        } else if label.starts_with("nonsquare") {
+            "nonsquare"
+        } else {
+            "noncanonical"
+        }
+    } else if x {
+        match label {
+            "zero" => "zero",
+            l if l.starts_with("zero") => "zerononreduced",
+            "small-order-u1" | "small-order-8a" | "small-order-8b" | "small-order-p-1" => "smallorder",
+            _ => "smallordernonreduced",
+        }
+    } else if label == "tag-05" {
+        "compact"
+    } else if label.starts_with("tag") {
+        "badtag"
+    } else if label.starts_with("x-not") {
+        "offcurve"
+    } else if label == "all-zero" {
+        "allzero"
+    } else {
+        "xgep"
+    }
+}
+
+use crate::rng::TapeRng;
+use crate::suite::{Codec, Kind, Lens, Suite, DECODERS};
+use serde_json::{json, Value};
+
+/// field layout of every decoder: (kind, length); the same table as Layout in spec/Wire.tla
+pub fn layout(decoder: &str, l: &Lens) -> Vec<(&'static str, usize)> {
+    match decoder {
+        "RegistrationRequest" => vec![("oel", l.noe)],
+        "RegistrationResponse" => vec![("oel", l.noe), ("kpk", l.npk)],
+        "RegistrationUpload" | "ServerRegistration" => vec![("kpk", l.npk), ("b", l.nh), ("b", l.nn), ("b", l.nh)],
+        "CredentialRequest" => vec![("oel", l.noe), ("b", l.nn), ("kpk", l.npk)],
+        "CredentialResponse" => vec![("oel", l.noe), ("b", l.nn), ("b", l.npk + l.nn + l.nh), ("b", l.nn), ("kpk", l.npk), ("b", l.nh)],
+        "CredentialFinalization" => vec![("b", l.nh)],
+        "ServerSetup" => vec![("b", l.nh), ("ksk", l.nsk), ("ksk", l.nsk)],
+        "ClientRegistration" => vec![("osc", l.nok), ("oel", l.noe)],
+        "ClientLogin" => vec![("osc", l.nok), ("oel", l.noe), ("b", l.nn), ("kpk", l.npk), ("ksk", l.nsk), ("b", l.nn)],
+        "ServerLogin" => vec![("b", l.nh), ("b", l.nh), ("b", l.nh)],
+        _ => panic!("decoder {decoder}"),
+    }
+}
+
+/// One valid encoding per decoder, produced by an honest run of the real API
+pub fn valid_encodings(suite: &dyn Suite, seed: u64) -> std::collections::HashMap<&'static str, Vec<u8>> {
+    let mut m = std::collections::HashMap::new();
+    let pw = b"correct horse";
+    let cid = b"user@example";
+    let setup = suite.setup_new(&mut TapeRng::new(seed, 1));
+    let (rreq, rst) = suite.creg_start(&mut TapeRng::new(seed, 2), pw).ok().expect("creg_start");
+    let rresp = suite.sreg_start(&setup, &rreq, cid).ok().expect("sreg_start");
+    let fin = suite.creg_finish(&rst, &mut TapeRng::new(seed, 3), pw, &rresp, None, None, None).ok().expect("creg_finish");
+    let (creq, cst) = suite.clog_start(&mut TapeRng::new(seed, 4), pw).ok().expect("clog_start");
+    let (cresp, sst) = suite
+        .slog_start(&mut TapeRng::new(seed, 5), &setup, Some(&fin.upload), &creq, cid, None, None, None)
+        .ok()
+        .expect("slog_start");
+    let cfin = suite.clog_finish(&cst, pw, &cresp, None, None, None, None).ok().expect("clog_finish");
+    m.insert("RegistrationRequest", rreq);
+    m.insert("RegistrationResponse", rresp);
+    m.insert("RegistrationUpload", fin.upload.clone());
+    m.insert("ServerRegistration", fin.upload);
+    m.insert("CredentialRequest", creq);
+    m.insert("CredentialResponse", cresp);
+    m.insert("CredentialFinalization", cfin.fin);
+    m.insert("ServerSetup", suite.setup_ser(&setup));
+    m.insert("ClientRegistration", suite.ser(Kind::Reg, &rst));
+    m.insert("ClientLogin", suite.ser(Kind::Cli, &cst));
+    m.insert("ServerLogin", suite.ser(Kind::Srv, &sst));
+    m
+}
+
+pub struct WireCtx<'a> {
+    pub suite: &'a dyn Suite,
+    pub lens: Lens,
+    pub refo: Box<dyn refgroup::RefOprf>,
+    pub refk: Box<dyn refgroup::RefKe>,
+    pub valid: std::collections::HashMap<&'static str, Vec<u8>>,
+    pub evals: usize,
+    pub accepted: usize,
+    pub rejected: usize,
+    pub violations: Vec<Value>,
+}
+
+impl<'a> WireCtx<'a> {
+    pub fn new(suite: &'a dyn Suite, seed: u64) -> Self {
+        WireCtx {
+            suite,
+            lens: suite.lens(),
+            refo: refgroup::oprf_by_name(suite.oprf()),
+            refk: refgroup::ke_by_name(suite.ke()),
+            valid: valid_encodings(suite, seed),
+            evals: 0,
+            accepted: 0,
+            rejected: 0,
+            violations: vec![],
+        }
+    }
+
+    fn field_valid(&self, kind: &str, b: &[u8]) -> bool {
+        match kind {
+            "oel" => self.refo.elem_valid(b),
+            "osc" => self.refo.scalar_valid(b),
+            "kpk" => self.refk.pk_valid(b),
+            "ksk" => self.refk.sk_valid(b),
+            _ => true,
+        }
+    }
+
+    /// The abstraction function composed with SpecDecode: exact length and every group
+    /// field a valid canonical encoding (reference predicates only).
+    pub fn oracle(&self, decoder: &str, b: &[u8]) -> bool {
+        let lay = layout(decoder, &self.lens);
+        let total: usize = lay.iter().map(|f| f.1).sum();
+        if b.len() != total {
+            return false;
+        }
+        let mut p = 0;
+        for (k, n) in lay {
+            if !self.field_valid(k, &b[p..p + n]) {
+                return false;
+            }
+            p += n;
+        }
+        true
+    }
+
+    /// members of a class for a field of the given kind (starting from the valid field bytes)
+    pub fn members(&self, kind: &str, cls: &str, valid: &[u8]) -> Vec<(String, Vec<u8>)> {
+        let (group, what) = match kind {
+            "oel" => (self.suite.oprf(), "elem"),
+            "osc" => (self.suite.oprf(), "scalar"),
+            "kpk" => (self.suite.ke(), "elem"),
+            "ksk" => (self.suite.ke(), "scalar"),
+            _ => return vec![("any".into(), valid.to_vec())],
+        };
+        match cls {
+            "valid" => {
+                let mut v = vec![("valid".to_string(), valid.to_vec())];
+                // NIST: the other square root (tag 02 <-> 03) is a different valid point
+                if what == "elem" && (valid[0] == 2 || valid[0] == 3) && valid.len() % 2 == 1 && valid.len() > 32 {
+                    let mut o = valid.to_vec();
+                    o[0] ^= 1;
+                    v.push(("valid-other-root".into(), o));
+                }
+                v
+            }
+            "validhighbit" => {
+                let mut o = valid.to_vec();
+                o[31] |= 0x80;
+                vec![("valid-highbit".into(), o)]
+            }
+            c => invalid_encodings(group, what, valid.len())
+                .into_iter()
+                .filter(|(label, _)| tla_class(group, what, label) == c)
+                .collect(),
+        }
+    }
+
+    fn report(&mut self, decoder: &str, kind: &str, detail: String, input: &[u8], extra: Value) {
+        // one sample per (decoder, kind, offending field); the others are counted
+        let field = self.first_bad_field(decoder, input);
+        for v in self.violations.iter_mut() {
+            if v["decoder"] == decoder && v["kind"] == kind && v["field"] == field {
+                let c = v["count"].as_u64().unwrap_or(1) + 1;
+                v["count"] = json!(c);
+                return;
+            }
+        }
+        self.violations.push(json!({"suite": self.suite.name(), "decoder": decoder, "kind": kind, "field": field,
+            "detail": detail, "input": hex::encode(input), "info": extra, "count": 1}));
+    }
+
+    /// description of the first field the reference predicates reject: "<index>:<kind>:<class>"
+    pub fn first_bad_field(&self, decoder: &str, b: &[u8]) -> String {
+        let lay = layout(decoder, &self.lens);
+        let total: usize = lay.iter().map(|f| f.1).sum();
+        if b.len() != total {
+            return if b.len() > total { "length:over".into() } else { "length:under".into() };
+        }
+        let mut p = 0;
+        for (i, (k, n)) in lay.iter().enumerate() {
+            let f = &b[p..p + n];
+            if !self.field_valid(k, f) {
+                return format!("{}:{}:{}", i + 1, k, self.describe_invalid(k, f));
+            }
+            p += n;
+        }
+        "none".into()
+    }
+
+    fn describe_invalid(&self, kind: &str, f: &[u8]) -> String {
+        let (group, what) = match kind {
+            "oel" => (self.suite.oprf(), "elem"),
+            "osc" => (self.suite.oprf(), "scalar"),
+            "kpk" => (self.suite.ke(), "elem"),
+            _ => (self.suite.ke(), "scalar"),
+        };
+        for (label, bytes) in invalid_encodings(group, what, f.len()) {
+            if bytes == f {
+                return format!("{}/{}", tla_class(group, what, &label), label);
+            }
+        }
+        let nist = !group.starts_with("ristretto255") && group != "Curve25519";
+        if nist && what == "elem" && f[0] == 5 {
+            return "compact/tag-05".into();
+        }
+        if nist && what == "elem" && f[0] != 2 && f[0] != 3 {
+            return format!("badtag/tag-{:02x}", f[0]);
+        }
+        "other".into()
+    }
+
+    /// compare the real decoder with the oracle on one input
+    pub fn check_one(&mut self, decoder: &str, b: &[u8], expect: Option<bool>, info: &Value) {
+        self.evals += 1;
+        let want = self.oracle(decoder, b);
+        if let Some(e) = expect {
+            if e != want {
+                self.report(decoder, "classifier", format!("abstraction function disagrees with the TLC table (table {e}, reference {want})"), b, info.clone());
+                return;
+            }
+        }
+        let suite = self.suite;
+        let got = std::panic::catch_unwind(std::panic::AssertUnwindSafe(|| suite.decode(decoder, b)));
+        match got {
+            Err(_) => self.report(decoder, "panic", "decoder panicked".into(), b, info.clone()),
+            Ok(Ok(re)) => {
+                self.accepted += 1;
+                if !want {
+                    let lay = layout(decoder, &self.lens);
+                    let total: usize = lay.iter().map(|f| f.1).sum();
+                    let kind = if b.len() != total { "accepts-wrong-length" } else { "accepts-invalid-element" };
+                    self.report(decoder, kind, format!("decoder accepted {} bytes (fixed length {}); specification rejects", b.len(), total), b, info.clone());
+                } else if re != b {
+                    self.report(decoder, "non-canonical", "accepted input does not re-encode to itself".into(), b, info.clone());
+                }
+            }
+            Ok(Err(_)) => {
+                self.rejected += 1;
+                if want {
+                    self.report(decoder, "rejects-valid", "decoder rejected a valid encoding".into(), b, info.clone());
+                }
+            }
+        }
+    }
+
+    /// the same through serde: take the serde encoding of the valid object and substitute the
+    /// bytes of one field
+    pub fn check_serde(&mut self, decoder: &str, mutated: &[u8], field_off: usize, field_len: usize, info: &Value) {
+        let valid = self.valid[decoder].clone();
+        for codec in [Codec::Bincode, Codec::Json] {
+            let enc = match self.suite.to_serde(decoder, &valid, codec) {
+                Ok(e) => e,
+                Err(e) => {
+                    self.report(decoder, "serde", format!("valid object does not serialize: {e}"), &valid, info.clone());
+                    continue;
+                }
+            };
+            let old = &valid[field_off..field_off + field_len];
+            let new = &mutated[field_off..field_off + field_len];
+            let sub = match codec {
+                Codec::Bincode => replace_once(&enc, old, new),
+                _ => {
+                    let o = json_bytes(old);
+                    let n = json_bytes(new);
+                    replace_once(&enc, o.as_bytes(), n.as_bytes())
+                }
+            };
+            let Some(sub) = sub else { continue };
+            self.evals += 1;
+            let want = self.oracle(decoder, mutated);
+            let suite = self.suite;
+            let got = std::panic::catch_unwind(std::panic::AssertUnwindSafe(|| suite.from_serde(decoder, &sub, codec)));
+            match got {
+                Err(_) => self.report(decoder, "panic", format!("serde {:?} decoder panicked", codec), mutated, info.clone()),
+                Ok(Ok(re)) => {
+                    if !want {
+                        self.report(decoder, "serde-accepts-invalid-element", format!("serde {:?} decoder accepted an invalid field", codec), mutated, info.clone());
+                    } else if re != mutated {
+                        self.report(decoder, "non-canonical", format!("serde {:?}: accepted object re-encodes differently", codec), mutated, info.clone());
+                    }
+                }
+                Ok(Err(_)) => {
+                    if want {
+                        self.report(decoder, "rejects-valid", format!("serde {:?} decoder rejected a valid object", codec), mutated, info.clone());
+                    }
+                }
+            }
+        }
+    }
+
+    /// concretize one row of the TLC verdict table
+    pub fn check_row(&mut self, row: &Value) {
+        let decoder = row["T"].as_str().unwrap().to_string();
+        let n = row["n"].as_u64().unwrap() as usize;
+        let verdict = row["verdict"].as_str().unwrap() == "Ok";
+        let cls: Vec<String> = row["cls"].as_array().unwrap().iter().map(|c| c.as_str().unwrap().to_string()).collect();
+        let lay = layout(&decoder, &self.lens);
+        let total: usize = lay.iter().map(|f| f.1).sum();
+        assert_eq!(total, row["total"].as_u64().unwrap() as usize, "layout table of harness and Wire.tla differ");
+        let valid = self.valid[decoder.as_str()].clone();
+        if valid.len() != total {
+            self.report(&decoder, "layout", format!("valid encoding has {} bytes, layout says {}", valid.len(), total), &valid, row.clone());
+            return;
+        }
+        // choose members field by field; vary one non-valid field over all its members
+        let mut base = valid.clone();
+        let mut off = 0;
+        let mut varying: Vec<(usize, usize, Vec<(String, Vec<u8>)>)> = vec![];
+        for (i, (k, len)) in lay.iter().enumerate() {
+            let ms = self.members(k, &cls[i], &valid[off..off + len]);
+            if ms.is_empty() {
+                panic!("no member for class {} of {}", cls[i], k);
+            }
+            base[off..off + len].copy_from_slice(&ms[0].1);
+            if ms.len() > 1 {
+                varying.push((off, *len, ms));
+            }
+            off += len;
+        }
+        let mut inputs: Vec<(Vec<u8>, Option<(usize, usize)>)> = vec![(base.clone(), None)];
+        for (o, l, ms) in &varying {
+            for m in ms.iter().skip(1) {
+                let mut b = base.clone();
+                b[*o..*o + *l].copy_from_slice(&m.1);
+                inputs.push((b, Some((*o, *l))));
+            }
+        }
+        for (b, _) in inputs {
+            // length class: truncate, or extend with several paddings
+            let variants: Vec<Vec<u8>> = if n <= total {
+                vec![b[..n].to_vec()]
+            } else {
+                let extra = n - total;
+                let mut v = vec![];
+                for pad in [0u8, 0xff, 0x02] {
+                    let mut x = b.clone();
+                    x.extend(std::iter::repeat(pad).take(extra));
+                    v.push(x);
+                }
+                let mut x = b.clone();
+                x.extend(b.iter().cycle().take(extra));
+                v.push(x);
+                v
+            };
+            for x in variants {
+                self.check_one(&decoder, &x, Some(verdict), row);
+                if n == total {
+                    // C11: the same object through serde -- substitute the one field that differs
+                    // from the valid object (none differs: plain round trip)
+                    let mut differing = vec![];
+                    let mut o = 0;
+                    for (_, l) in lay.iter() {
+                        if x[o..o + l] != valid[o..o + l] {
+                            differing.push((o, *l));
+                        }
+                        o += l;
+                    }
+                    if differing.len() <= 1 {
+                        let (o, l) = differing.first().copied().unwrap_or((0, lay[0].1));
+                        self.check_serde(&decoder, &x, o, l, row);
+                    }
+                }
+            }
+        }
+    }
+
+    /// classifier-guided inputs beyond the table: all 256 values of the leading byte of every
+    /// group field, single-byte substitutions at every offset, random strings, bit flips
+    pub fn fuzz(&mut self, seed: u64, per_decoder: usize) {
+        let mut rng = crate::record::Prng(seed ^ 0x5eed);
+        for d in DECODERS {
+            let valid = self.valid[d].clone();
+            let lay = layout(d, &self.lens);
+            let info = json!({"source": "classifier-guided mutation"});
+            let mut off = 0;
+            for (k, len) in &lay {
+                if *k != "b" {
+                    for v in 0..=255u8 {
+                        let mut b = valid.clone();
+                        b[off] = v;
+                        self.check_one(d, &b, None, &info);
+                        let mut b = valid.clone();
+                        b[off + len - 1] = v;
+                        self.check_one(d, &b, None, &info);
+                    }
+                }
+                off += len;
+            }
+            for o in 0..valid.len() {
+                for m in [0x01u8, 0x80, 0xff] {
+                    let mut b = valid.clone();
+                    b[o] ^= m;
+                    self.check_one(d, &b, None, &info);
+                }
+            }
+            for _ in 0..per_decoder {
+                let mut b = valid.clone();
+                match rng.below(5) {
+                    0 => {
+                        let n = rng.below(b.len() + 70);
+                        b = (0..n).map(|_| rng.next() as u8).collect();
+                    }
+                    1 => {
+                        let k = 1 + rng.below(4);
+                        for _ in 0..k {
+                            let bit = rng.below(b.len() * 8);
+                            b[bit / 8] ^= 1 << (bit % 8);
+                        }
+                    }
+                    2 => {
+                        let n = rng.below(b.len() + 1);
+                        b.truncate(n);
+                    }
+                    3 => {
+                        let n = 1 + rng.below(64);
+                        for _ in 0..n {
+                            b.push(rng.next() as u8);
+                        }
+                    }
+                    _ => {
+                        // splice a field of another decoder's valid encoding in
+                        let other = self.valid[DECODERS[rng.below(DECODERS.len())]].clone();
+                        let at = rng.below(b.len());
+                        let n = rng.below(other.len()).min(b.len() - at);
+                        let from = rng.below(other.len() - n + 1);
+                        b[at..at + n].copy_from_slice(&other[from..from + n]);
+                    }
+                }
+                self.check_one(d, &b, None, &info);
+            }
+        }
+    }
+}
+
+fn replace_once(hay: &[u8], old: &[u8], new: &[u8]) -> Option<Vec<u8>> {
+    if old.is_empty() {
+        return None;
+    }
+    let pos: Vec<usize> = hay.windows(old.len()).enumerate().filter(|(_, w)| *w == old).map(|(i, _)| i).collect();
+    if pos.len() != 1 {
+        return None;
+    }
+    let mut v = hay[..pos[0]].to_vec();
+    v.extend_from_slice(new);
+    v.extend_from_slice(&hay[pos[0] + old.len()..]);
+    Some(v)
+}
+fn json_bytes(b: &[u8]) -> String {
+    let s: Vec<String> = b.iter().map(|x| x.to_string()).collect();
+    format!("[{}]", s.join(","))
+}
